@@ -423,7 +423,7 @@ def main(chk):
     rng = random.Random(chk.seed)
     _SEED = chk.seed
     q = tlc.q
-    consts = dict(Keys={1, 2}, MaxParams=3) if chk.quick else dict(Keys={1, 2, 3}, MaxParams=3)
+    consts = dict(Keys={1, 2}, MaxParams=3, AllBases=False) if chk.quick else dict(Keys={1, 2, 3}, MaxParams=3, AllBases=True)
     consts["Clauses"] = {q(c) for c in CLAUSES}
     cfgt = tlc.cfg(constants=consts, init="InitEmit", invariants=INVS, properties=PROPS, view="View", action_constraints=["Emit"])
     g = graph.dump("Upsert", cfgt, chk.work, timeout=2400)
